@@ -13,7 +13,7 @@ def run(pid, tier):
     sd = seed()
     wd = workdir(pid, 'traces')
     tr = wd / 'comp.ndjson'
-    s = rdv(['comp-drive', '--prop', pid, '--seed', sd, '--random', (40 if pid == 'C07' else 60) * (1 if tier == 'quick' else 12), '--out', tr], timeout=7200)
+    s = rdv(['comp-drive', '--prop', pid, '--seed', sd, '--random', (40 if pid == 'C07' else 60) * (1 if tier == 'quick' else 40), '--out', tr], timeout=7200)
     o.extra['drive'] = s
     lines = tr.read_text().splitlines()
     if len(lines) < 500:
